@@ -1,12 +1,16 @@
 (* Property C08: documented source-level equivalences preserve meaning.
-   PARTIAL.  Proved on the reference semantics, for all programs, scopes and fuel:
-   the three spellings of binding (let / -> / call), and laziness of &&, || and
-   cond (the result does not depend on the unselected operand in any way).
-   Comments, whitespace, redundant parentheses, precedence/associativity, the \.
-   default binder, literal folding and sugar vs spelled-out literals concern the
-   wbnf parser and the compiler (syntax/compile.go), which are not modelled: they
-   are decided by the metamorphic run original-vs-rewritten on the implementation. *)
-From Arrai Require Import Base.Val Spec.SetAlg Eval.Interp Proofs.EquivP Proofs.FuelP Gen.Prec Sys.Prec.
+   Proved on the reference semantics (Eval/Interp.v), for all programs, scopes and fuels:
+   - the three spellings of binding (let / -> / call) and laziness of &&, || and cond;
+   - an array / dict literal is its spelled-out set of tuples (same value, same failure);
+   - CONGRUENCE: a rewrite by any meaning-preserving rule, at any position of any program (all 27 expression forms,
+     under binders, in transformer positions, inside the expressions of patterns), any number of them at once,
+     preserves the function-free answers exactly and relates the functions (Eval/Rewrite.v: plug, crel, vrel);
+   - replacing a let-bound name by its value: PARTIAL (bodies without binders); with binders in the body the model
+     of the substitution (Eval/Rewrite.v: subst) is tied to the implementation by differential execution only.
+   Comments, whitespace, redundant parentheses, precedence / associativity, the \. default binder and literal folding
+   concern the wbnf parser and the compiler (syntax/compile.go), which are not modelled: they are decided by the
+   metamorphic run original-vs-rewritten on the implementation and by the regenerated precedence table. *)
+From Arrai Require Import Base.Val Spec.SetAlg Eval.Interp Eval.Rewrite Proofs.EquivP Proofs.FuelP Proofs.SugarP Proofs.RelValP Proofs.CongrP Proofs.SubstP Proofs.DictSugarP Proofs.CongrSymP Gen.Prec Sys.Prec.
 
 Theorem C08_let_is_arrow :
   forall fuel rho p e1 e2,
@@ -84,3 +88,171 @@ Theorem C08_arithmetic_grouping_is_as_documented :
   forall o1 o2, In o1 arith_ops -> In o2 arith_ops -> lookup prec_table o1 o2 = documented o1 o2.
 Proof. exact (arithmetic_pairs prec_table current_arithmetic_is_as_documented). Qed.
 Print Assumptions C08_arithmetic_grouping_is_as_documented.
+
+(* ---------- sugared literals ---------- *)
+
+(* [x0, , x2, ...] is {(@: 0, @item: x0), (@: 2, @item: x2), ...} (Eval/Rewrite.v: spell_arr; holes take an index and
+   no member): for every list of component expressions, every scope and every fuel the two have one answer - value,
+   error, outside the fragment, or none yet (the spelled-out form is one form deeper, hence one more unit of fuel) *)
+Theorem C08_array_literal_is_its_spelled_out_set :
+  forall k rho l, eval (S (S (S k))) rho (spell_arr l) = eval (S (S k)) rho (EArrE l).
+Proof. exact array_literal_spelled. Qed.
+Print Assumptions C08_array_literal_is_its_spelled_out_set.
+
+(* ... so they have the same meaning whatever fuel each is run with *)
+Theorem C08_array_literal_same_meaning : forall l, same_meaning (EArrE l) (spell_arr l).
+Proof. exact array_literal_same_meaning. Qed.
+Print Assumptions C08_array_literal_same_meaning.
+
+(* {k: v, ...} is {(@: k, @value: v), ...}: one answer (value and failure alike), except that the literal is refused
+   when two of its key expressions evaluate to the same value, where the set of tuples still exists *)
+Theorem C08_dict_literal_is_its_spelled_out_set :
+  forall k rho l,
+    eval (S (S k)) rho (EDictE l) = eval (S (S (S k))) rho (spell_dict l) \/
+    (eval (S (S k)) rho (EDictE l) = Err /\ (exists v, eval (S (S (S k))) rho (spell_dict l) = Ok (D v)) /\
+     dict_keys_clash (S k) rho l).
+Proof. exact dict_literal_spelled. Qed.
+Print Assumptions C08_dict_literal_is_its_spelled_out_set.
+
+(* the exception is real: {1: 2, 1: 3} against {(@: 1, @value: 2), (@: 1, @value: 3)} *)
+Theorem C08_dict_literal_with_repeated_key_differs :
+  exists l, run 5 (EDictE l) = Err /\ exists v, run 5 (spell_dict l) = Ok (D v).
+Proof. exact dict_literal_repeated_key_differs. Qed.
+Print Assumptions C08_dict_literal_with_repeated_key_differs.
+
+Example C08_array_sugar_probe :
+  run_data 9 (EArrE [Some (ELit (vint 7)); None; Some (EBin BAdd (ELit (vint 1)) (ELit (vint 2)))]) =
+  run_data 9 (spell_arr [Some (ELit (vint 7)); None; Some (EBin BAdd (ELit (vint 1)) (ELit (vint 2)))]) /\
+  run_data 9 (EArrE [Some (ELit (vint 7)); None; Some (EBin BAdd (ELit (vint 1)) (ELit (vint 2)))]) =
+  Ok (VSet [vitem 0 (vint 7); vitem 2 (vint 3)]).
+Proof. vm_compute. split; reflexivity. Qed.
+
+(* ---------- rewriting at any position ---------- *)
+
+(* Congruence.  Let e and e' have the same meaning (in every scope: the same answer whenever both have one, and one has
+   an answer iff the other has - Eval/Rewrite.v: same_meaning).  Then for EVERY one-hole context C - all 27 expression
+   forms, under function, let and arm binders, in transformer positions, and inside the expressions of patterns -
+   C[e] and C[e'] have exactly the same function-free answers in every scope: the same data value, the same error,
+   the same "outside the fragment", at some fuel each. *)
+Theorem C08_rewrites_apply_at_every_position :
+  forall e e', same_meaning e e' -> forall C, same_data_meaning (plug C e) (plug C e').
+Proof. exact rewrite_at_position_data. Qed.
+Print Assumptions C08_rewrites_apply_at_every_position.
+
+(* ... and when the answer is a function, the other program answers with a function too, related to it by the
+   logical relation: captured scopes related name by name, parameter patterns and bodies equal up to the rewrite *)
+Theorem C08_rewrites_apply_at_every_position_functions :
+  forall e e', same_meaning e e' ->
+  forall C, meaning_related (swap_rule e e') (plug C e) (plug C e') /\
+            meaning_related (swap_rule e' e) (plug C e') (plug C e).
+Proof. exact rewrite_at_position. Qed.
+Print Assumptions C08_rewrites_apply_at_every_position_functions.
+
+(* any number of rewrites at once, at any positions (compatible closure of a set R of meaning-preserving rules) *)
+Theorem C08_simultaneous_rewrites_preserve_meaning :
+  forall R : expr -> expr -> Prop, (forall e e', R e e' -> same_meaning e e') ->
+  forall e e', crel R e e' -> meaning_related R e e'.
+Proof. exact rewrites_everywhere. Qed.
+Print Assumptions C08_simultaneous_rewrites_preserve_meaning.
+
+(* the documented equivalences of the expression language (let = -> = call, array sugar, operands hidden behind
+   && / || / cond; either direction) each preserve meaning ... *)
+Theorem C08_documented_equivalences_preserve_meaning : forall e e', Rewrite.documented e e' -> same_meaning e e'.
+Proof. exact documented_same_meaning. Qed.
+Print Assumptions C08_documented_equivalences_preserve_meaning.
+
+(* ... hence may be applied at every position of every program *)
+Theorem C08_documented_rewrite_at_every_position :
+  forall e e', Rewrite.documented e e' -> forall C, same_data_meaning (plug C e) (plug C e').
+Proof. exact documented_rewrite_at_position. Qed.
+Print Assumptions C08_documented_rewrite_at_every_position.
+
+(* non-vacuity: a let turned into an arrow inside a function body that `where` applies to every member, under a let *)
+Example C08_congruence_probe :
+  let C := XLetBody (PVar [120]) (ELit (vint 2))
+             (XWhereR (ESetE [ELit (vint 1); ELit (vint 2); ELit (vint 3)])
+                (XFnBody (PVar [121]) XHole)) in
+  let e := ELet (PVar [122]) (EVar [121]) (ECmp CLt (EVar [120]) (EVar [122])) in
+  let e' := EArrow (EVar [121]) (EFn (PVar [122]) (ECmp CLt (EVar [120]) (EVar [122]))) in
+  Rewrite.documented e e' /\ ctx_depth C = 3%nat /\
+  run_data 20 (plug C e) = Ok (VSet [vint 3]) /\ run_data 20 (plug C e') = Ok (VSet [vint 3]).
+Proof. cbv zeta. split; [constructor|]. vm_compute. repeat split. Qed.
+
+(* ---------- replacing a let-bound name by its value ---------- *)
+
+(* PARTIAL: bodies without binders (no function literal, no let, no pattern conditional - Eval/Rewrite.v: binder_free).
+   `let x = v; e` and e with the free x replaced by the literal v (Eval/Rewrite.v: subst) have one answer at
+   corresponding fuels, in every scope.  Missing: bodies with binders, where subst stops at the binders that rebind x
+   and the captured scopes of the functions created differ by the binding of x (needs a second value relation);
+   that part is checked against the implementation and the interpreter by the substitution stream only. *)
+Theorem C08_let_bound_name_replaced_by_its_value_partial :
+  forall x v n rho e, binder_free e = true ->
+    eval (S (S n)) rho (ELet (PVar x) (ELit v) e) = eval (S n) rho (subst x v e).
+Proof. exact let_literal_binder_free. Qed.
+Print Assumptions C08_let_bound_name_replaced_by_its_value_partial.
+
+(* ... also when the let is not the innermost binding (other names bound in between) *)
+Theorem C08_bound_name_replaced_under_other_bindings_partial :
+  forall x v n pre rho e, binder_free e = true -> name_in x (map fst pre) = false ->
+    eval n (pre ++ (x, D (norm v)) :: rho) e = eval n (pre ++ rho) (subst x v e).
+Proof. exact subst_binder_free. Qed.
+Print Assumptions C08_bound_name_replaced_under_other_bindings_partial.
+
+(* non-vacuity, and what subst does at binders that rebind the name (outside the partial theorem, evaluated here) *)
+Example C08_subst_probe :
+  let x := [120] in
+  let body := EBin BAdd (EVar x) (ECond [(ECmp CLt (EVar x) (ELit (vint 5)), EBin BMul (EVar x) (EVar x))] None) in
+  binder_free body = true /\
+  run_data 9 (ELet (PVar x) (ELit (vint 3)) body) = Ok (vint 12) /\ run_data 9 (subst x (vint 3) body) = Ok (vint 12) /\
+  (* let x = 3; x + (let x = x + 1; x * 10): the inner body keeps its x *)
+  subst x (vint 3) (EBin BAdd (EVar x) (ELet (PVar x) (EBin BAdd (EVar x) (ELit (vint 1))) (EBin BMul (EVar x) (ELit (vint 10))))) =
+    EBin BAdd (ELit (vint 3)) (ELet (PVar x) (EBin BAdd (ELit (vint 3)) (ELit (vint 1))) (EBin BMul (EVar x) (ELit (vint 10)))) /\
+  run_data 9 (ELet (PVar x) (ELit (vint 3)) (EBin BAdd (EVar x) (ELet (PVar x) (EBin BAdd (EVar x) (ELit (vint 1))) (EBin BMul (EVar x) (ELit (vint 10)))))) = Ok (vint 43).
+Proof. cbv zeta. vm_compute. repeat split. Qed.
+
+(* non-vacuity of the dict theorem: both disjuncts occur *)
+Example C08_dict_sugar_probe :
+  run 5 (EDictE [(ELit (vint 1), ELit (vint 2)); (ELit (vint 3), ELit (vint 4))]) =
+  run 6 (spell_dict [(ELit (vint 1), ELit (vint 2)); (ELit (vint 3), ELit (vint 4))]) /\
+  run 5 (EDictE [(ELit (vint 1), ELit (vint 2)); (ELit (vint 3), ELit (vint 4))]) =
+  Ok (D (VSet [ventry (vint 1) (vint 2); ventry (vint 3) (vint 4)])).
+Proof. vm_compute. split; reflexivity. Qed.
+
+(* ---------- more on sugar and on simultaneous rewrites ---------- *)
+
+(* a dict literal whose keys are literals with pairwise different values has the same meaning as its spelled-out set,
+   so this sugar too may be spelled out at every position *)
+Theorem C08_dict_literal_same_meaning :
+  forall l, distinct_literal_keys l -> same_meaning (EDictE l) (spell_dict l).
+Proof. exact dict_literal_same_meaning. Qed.
+Print Assumptions C08_dict_literal_same_meaning.
+
+Theorem C08_dict_sugar_at_every_position :
+  forall l, distinct_literal_keys l -> forall C, same_data_meaning (plug C (EDictE l)) (plug C (spell_dict l)).
+Proof. exact dict_sugar_at_position. Qed.
+Print Assumptions C08_dict_sugar_at_every_position.
+
+Example C08_distinct_literal_keys_probe :
+  distinct_literal_keys [(ELit (vint 1), EVar [97]); (ELit (vint 2), EVar [98])].
+Proof.
+  intros l1 p l2 q l3 H. destruct l1 as [|a l1]; cbn [app] in H.
+  - injection H as <- H. destruct l2 as [|b l2]; cbn [app] in H.
+    + injection H as <- _. exists (vint 1), (vint 2). repeat split. discriminate.
+    + injection H as _ H. destruct l2; discriminate.
+  - injection H as _ H. destruct l1 as [|b l1]; cbn [app] in H.
+    + injection H as _ H. destruct l2; discriminate.
+    + injection H as _ H. destruct l1; discriminate.
+Qed.
+
+(* any number of meaning-preserving rewrites at any positions at once, as an equivalence: exactly the same
+   function-free answers (the closure is symmetric: Proofs/CongrSymP.v) *)
+Theorem C08_simultaneous_rewrites_same_data_meaning :
+  forall R : expr -> expr -> Prop, (forall e e', R e e' -> same_meaning e e') ->
+  forall e e', crel R e e' -> same_data_meaning e e'.
+Proof. exact rewrites_everywhere_data. Qed.
+Print Assumptions C08_simultaneous_rewrites_same_data_meaning.
+
+Theorem C08_documented_rewrites_everywhere :
+  forall e e', crel Rewrite.documented e e' -> same_data_meaning e e'.
+Proof. exact documented_rewrites_everywhere_data. Qed.
+Print Assumptions C08_documented_rewrites_everywhere.
